@@ -35,6 +35,12 @@ Definition holds_C01 (c : case_C01) : bool :=
       && id_shape i0
       && json_eqb (norm (c1_file c)) (norm (c1_val c))
       && forallb (fun o => json_eqb (norm (fst o)) (norm (c1_val c)) || negb (str_eqb (snd o) i0)) (c1_others c)
+      (* among the further (value, observed id) pairs: ids are well-formed, the same value always got the same id
+         and different values different ids *)
+      && forallb (fun o => id_shape (snd o)) (c1_others c)
+      && forallb (fun o1 => forallb (fun o2 =>
+                    Bool.eqb (json_eqb (norm (fst o1)) (norm (fst o2))) (str_eqb (snd o1) (snd o2)))
+                  (c1_others c)) (c1_others c)
   end.
 
 Definition violation_C01 (c : case_C01) : bool := negb (holds_C01 c).
